@@ -22,11 +22,12 @@ type c09Cfg struct {
 	useLvl  int     // 0 none; else the level that has a use tag
 	useKind int     // 0 plain use of 'blk' (defines all names), 1 aliased use of 'blk2' (x as y) + block('y')
 	blockFn bool    // root's first block also prints block(<second name>)
+	nested  bool    // every child-level definition holds a nested block of its own before calling parent()
 }
 
 func c09Decode(n []int) c09Cfg {
 	// n = [L, nNames, layout, pref, useLvl, useKind, blockFn, opts...]
-	c := c09Cfg{L: n[0], layout: n[2], pref: n[3], useLvl: n[4], useKind: n[5], blockFn: n[6] == 1}
+	c := c09Cfg{L: n[0], layout: n[2], pref: n[3], useLvl: n[4], useKind: n[5], blockFn: n[6]&1 == 1, nested: n[6]&2 == 2}
 	c.names = []string{"a", "b", "c", "d"}[:n[1]]
 	c.opt = make([][]int, c.L)
 	c.opt[0] = make([]int, len(c.names))
@@ -116,6 +117,9 @@ func c09Templates(c c09Cfg) map[string]string {
 				extra = "+{{ block('y') }}"
 			}
 			firstOwn = false
+			if c.nested {
+				extra += "{% if true %}{% block zz" + n + itoa(l) + " %}(z:{{ name() }}){% endblock %}{% endif %}"
+			}
 			s.WriteString("{% block " + n + " %}" + c09Body(n, l, "t"+itoa(l), c.opt[l][i] == 2, extra) + "{% endblock %}between")
 		}
 		t["t"+itoa(l)] = s.String()
@@ -176,6 +180,9 @@ func c09Expect(c c09Cfg) string {
 			}
 		} else if c.useLvl == d.level && c.useKind == 1 && firstOwnOf[d.level] == ni {
 			s += "+[xX:blk2]"
+		}
+		if d.level > 0 && c.nested {
+			s += "(z:" + d.tpl + ")"
 		}
 		if d.parent {
 			s += "^" + render(ni, k+1)
@@ -273,7 +280,7 @@ func c09Gen(maxL, nNames int, emit func(core.Case)) {
 							kinds = 1
 						}
 						for uk := 0; uk < kinds; uk++ {
-							for bf := 0; bf < 2; bf++ {
+							for bf := 0; bf < 4; bf++ {
 								emit(core.Case{Fam: "cfg", N: append([]int{L, nNames, layout, pref, useLvl, uk, bf}, opts...)})
 							}
 						}
@@ -301,7 +308,7 @@ func init() {
 	core.Register(&core.Check{
 		ID:       "C09",
 		Category: "exploration",
-		Rule: "bounded-exhaustive inheritance configurations: chain length 1..4, 2 block names (3 up to length 3; thorough: 3 names to length 4, 4 names to length 2), each (level, name) absent / overriding / overriding and calling parent(), root defining all; root layout flat / second block nested in the first / first block inside a 2-iteration loop; parent named by literal, variable or concatenation; a use tag at any extending level, plain (block set ranking between own and ancestors' blocks) or aliased with block('y'); block(name) in the root; text outside blocks in every child; every block prints Context.Name(). " +
+		Rule: "bounded-exhaustive inheritance configurations: chain length 1..4, 2 block names (3 up to length 3; thorough: 3 names to length 4, 4 names to length 2), each (level, name) absent / overriding / overriding and calling parent(), root defining all; root layout flat / second block nested in the first / first block inside a 2-iteration loop; parent named by literal, variable or concatenation; a use tag at any extending level, plain (block set ranking between own and ancestors' blocks) or aliased with block('y'); block(name) in the root; optionally a nested block of its own inside every child-level definition, before its parent() call; text outside blocks in every child; every block prints Context.Name(). " +
 			"Reference: textbook resolution (most-derived definition; parent() = next definition in the order child, used, ancestors; name() = defining template). distinct = distinct configuration; non-trivial = chain length > 1",
 		Assumptions: []string{"a non-extending template with use is not claimed", "used templates define plain blocks (no parent() inside used blocks)"},
 		Levels:      c09Levels,
